@@ -285,6 +285,7 @@ pub fn run(rep: &Report) {
             execs.fetch_add(1, Ordering::Relaxed);
         }
     }
+    cli_roundtrips(rep);
     rep.eval(execs.load(Ordering::Relaxed));
     rep.extra("production_executions", json!(execs.load(Ordering::Relaxed)));
     rep.extra("production_lengths", json!(lens));
@@ -292,7 +293,99 @@ pub fn run(rep: &Report) {
     rep.set_exhaustive(true);
 }
 
+/// `kestrel encrypt` then `kestrel decrypt` through files and pipes, into fresh and into pre-existing (longer) output paths
+fn cli_roundtrips(rep: &Report) {
+    use crate::fx::Party;
+    use crate::proc::{self, Cmd, Scratch};
+    let seed = rep.seed;
+    let alice = Party::new(seed, "alice", "alicepw");
+    let bob = Party::new(seed, "bob", "bobpw");
+    let kr = crate::fx::keyring(&[(&bob, true), (&alice, true)]);
+    let cs = CS as usize;
+    let mut jobs = vec![];
+    for l in [0usize, 1, 1000, cs, cs + 1] {
+        for (s, r) in [(0usize, 1usize), (1, 0), (0, 0)] {
+            for pipes in [false, true] {
+                for preexisting in [false, true] {
+                    jobs.push((l, s, r, pipes, preexisting));
+                }
+            }
+        }
+    }
+    let parties = [&alice, &bob];
+    jobs.par_iter().for_each(|&(l, s, r, pipes, preexisting)| {
+        rep.eval(1);
+        rep.nontrivial(format!("cli-rt-{}-{}-{}-{}-{}", l, s, r, pipes, preexisting).as_bytes());
+        let p = plaintext(seed ^ 0x5c ^ l as u64, l);
+        let attempt = || -> Result<(), String> {
+            let sc = Scratch::new();
+            sc.write("kr.txt", kr.as_bytes());
+            sc.write("plain.bin", &p);
+            if preexisting {
+                sc.write("ct.ktl", &vec![b'O'; 300_000]);
+                sc.write("back.bin", &vec![b'O'; 300_000]);
+            }
+            let (snd, rcp) = (parties[s], parties[r]);
+            // encrypt
+            let ct = if pipes {
+                let o = proc::run(&Cmd::new(&["encrypt", "-t", &rcp.name, "-f", &snd.name, "-k", "kr.txt", "--env-pass"]).env("KESTREL_PASSWORD", &snd.password).stdin(&p), &sc.0);
+                o.well_behaved()?;
+                if !o.ok() {
+                    return Err(format!("kestrel encrypt (pipes) failed: {}", o.summary()));
+                }
+                o.stdout
+            } else {
+                let o = proc::run(&Cmd::new(&["encrypt", "plain.bin", "-t", &rcp.name, "-f", &snd.name, "-k", "kr.txt", "-o", "ct.ktl", "--env-pass"]).env("KESTREL_PASSWORD", &snd.password), &sc.0);
+                o.well_behaved()?;
+                if !o.ok() {
+                    return Err(format!("kestrel encrypt (files) failed: {}", o.summary()));
+                }
+                sc.read("ct.ktl").ok_or("no ciphertext file")?
+            };
+            // decrypt
+            let (back, stderr) = if pipes {
+                let o = proc::run(&Cmd::new(&["decrypt", "-t", &rcp.name, "-k", "kr.txt", "--env-pass"]).env("KESTREL_PASSWORD", &rcp.password).stdin(&ct), &sc.0);
+                o.well_behaved()?;
+                if !o.ok() {
+                    return Err(format!("kestrel decrypt (pipes) of the file just produced failed: {}", o.summary()));
+                }
+                (o.stdout, o.stderr)
+            } else {
+                let o = proc::run(&Cmd::new(&["decrypt", "ct.ktl", "-t", &rcp.name, "-k", "kr.txt", "-o", "back.bin", "--env-pass"]).env("KESTREL_PASSWORD", &rcp.password), &sc.0);
+                o.well_behaved()?;
+                if !o.ok() {
+                    return Err(format!("kestrel decrypt (files{}) of the file just produced failed: {}", if preexisting { ", output paths existed before" } else { "" }, o.summary()));
+                }
+                (sc.read("back.bin").ok_or("no plaintext file")?, o.stderr)
+            };
+            if back != p {
+                return Err(format!("CLI round trip of {} bytes ({}{}) returns {} bytes that differ from the original", l, if pipes { "pipes" } else { "files" }, if preexisting { ", output paths held longer files before" } else { "" }, back.len()));
+            }
+            if !stderr.lines().any(|x| x == format!("Success. File from: {}", snd.name)) {
+                return Err(format!("decryption does not report sender '{}': {:?}", snd.name, stderr));
+            }
+            Ok(())
+        };
+        if attempt().is_err() {
+            if let Err(e) = attempt() {
+                rep.violation(
+                    &format!("C01/cli-roundtrip-{}{}", if pipes { "pipes" } else { "files" }, if preexisting { "-preexisting-output" } else { "" }),
+                    json!({"kind":"cli-roundtrip","l":l,"s":s,"r":r,"pipes":pipes,"preexisting":preexisting}),
+                    e,
+                );
+            }
+        }
+    });
+    rep.extra("cli_roundtrips", json!(jobs.len()));
+    rep.sample(json!({"kind":"cli-roundtrip","L":cs+1,"from":"alice","to":"alice","wiring":"files; ct.ktl and back.bin held 300000 other bytes before","expect":"decrypted bytes == original, 'Success. File from: alice'"}));
+}
+
 pub fn replay(rep: &Report, case: &Value) {
+    if case["kind"] == "cli-roundtrip" {
+        println!("  re-running the CLI round trips");
+        cli_roundtrips(rep);
+        return;
+    }
     if case["kind"] == "ref-parse" {
         let key: [u8; 32] = unhx(case["key"].as_str().unwrap()).try_into().unwrap();
         let p = unhx(case["plain"].as_str().unwrap());
